@@ -1,4 +1,5 @@
 import PV.Proofs.DiffMore
+import PV.Proofs.DiffZero
 import PV.Proofs.DiffTableCurrent
 /-
   C10 — symbolic differentiation yields the true derivative.
@@ -212,7 +213,9 @@ the undifferentiated suffix; `map_call` sums `function_map(i, function, paramete
 rec(parameter)`; `map_quotient` / `map_power` read (`numerator`, `denominator`) / (`base`,
 `exponent`), differentiate the first child first, and `map_power` builds its logarithm with
 `pymbolic.var("log")`; `map_if` is gated and rebuilds `(condition, rec(then), rec(else_))`; the
-CSE handler rebuilds `(rec(child), prefix, scope)`; `map_subscript` is `map_variable`;
+CSE handler differentiates `child` ONCE, answers the int literal `0` when `primitives.is_zero`
+accepts the result (`cseZero = some 0`; `is_zero` is `not bool(·)`, read from primitives.py) and
+otherwise rebuilds `(result, prefix, scope)`; `map_subscript` is `map_variable`;
 `rec_undiff` is the identity; `differentiate` wraps a `variable` that is neither a `Variable`
 nor a `Subscript`.  The only `self.rec` call written inside a result is `self.rec(f)` in the third
 branch of `map_quotient` (performed by `diffC`); the accepted settings are the three of `Smooth`,
@@ -221,15 +224,16 @@ theorem handler_shapes_current :
     c10DiffTable.shapes = c10ModelShapes ∧
     c10DiffTable.quot.recalls = [[], [], [.f], []] ∧
     c10DiffTable.pow.recalls = [[], [], [], []] ∧
+    c10DiffTable.cseZero = some 0 ∧
     c10DiffTable.settings.map Smooth.ofName? = [some .none, some .continuous, some .discontinuous] ∧
     Smooth.ofName? c10DiffTable.noneSetting = some .none ∧
     c10DiffTable.bases = ["pymbolic.mapper.RecursiveMapper",
       "pymbolic.mapper.CSECachingMapperMixin"] :=
-  ⟨rfl, rfl, rfl, rfl, rfl, rfl⟩
+  ⟨rfl, rfl, rfl, rfl, rfl, rfl, rfl⟩
 
 /-- **The table-driven differentiator is `diff`.**  `c10DiffT T` runs the differentiator with
-the function table, the quotient and power rules, the `If` gate and the leaf rules taken from a
-table `T`; on the table regenerated from the source it computes, for every setting, variable and
+the function table, the quotient and power rules, the `If` gate, the CSE handler's answer for a
+vanishing child derivative and the leaf rules taken from a table `T`; on the table regenerated from the source it computes, for every setting, variable and
 tree, exactly what the hand-written `diff` computes (tree or error). -/
 theorem diff_eq_table_current (cfg : Smooth) (v e : Expr) :
     diff cfg v e = c10DiffT Generated.c10DiffTable cfg v e :=
@@ -279,17 +283,112 @@ example : ∀ d, c10DiffT Generated.c10DiffTable .none X (.nary .prod [X, mcall 
 /-! ### a variable that does not occur -/
 
 /-- If no leaf of `e` is `==` to the differentiation variable, the derivative tree evaluates to 0
-in every environment (it is the literal `0` unless `If` / CSE wrappers are kept around zeros). -/
+in every environment (it is the literal `0` unless an `If` is kept around zeros:
+`diff_var_absent_literal`). -/
 theorem diff_var_absent (cfg : Smooth) (v e d : Expr) (h : diff cfg v e = .ok d)
     (ha : absent v e = true) (ρ : Expr → ℝ) : evalR ρ d = 0 :=
   diff_absent cfg v ρ e d h ha
 
 example : diff .none (.var "w") (.bin .quot (.nary .prod [X, X]) (mcall .exp [Y])) = .ok zero := rfl
 example (ρ : Expr → ℝ) :
-    evalR ρ (.cse zero none "s") = 0 :=
-  diff_var_absent .none (.var "w") (.cse X none "s") _ rfl rfl ρ
+    evalR ρ (.ite (.cmp .lt X Y) zero zero) = 0 :=
+  diff_var_absent .discontinuous (.var "w") (.ite (.cmp .lt X Y) X Y) _ rfl rfl ρ
+
+/-- **… and it is the literal `0`.**  If no leaf of `e` is `==` to the differentiation variable
+and `e` contains no `If` (under "none" / "continuous" an `If` is refused anyway), the derivative is
+the int literal `0` itself — not merely a tree that evaluates to 0.  This is what the product,
+quotient and power rules test (`not df`): it holds since the CSE handler answers `0` for a
+vanishing child derivative instead of a (truthy) wrapper around it
+(`cse_zero_wrapped_table_cex`: the old handler); `If(c, 0, 0)` is the one remaining wrapper. -/
+theorem diff_var_absent_literal (cfg : Smooth) (v e d : Expr) (h : diff cfg v e = .ok d)
+    (ha : absent v e = true) (hi : cfg = .discontinuous → iteFree e = true) : d = zero :=
+  diff_absent_zero cfg v e d h ha hi
+
+/-- non-vacuity: nested wrappers, a product and a call around a variable that is not `w` -/
+example : diff .none (.var "w")
+    (.cse (.nary .prod [.cse X none "s", mcall .sin [.cse (.bin .pow X Y) (some "u") "t"]]) none "s")
+    = .ok zero := rfl
+example : diff .none (.var "w") (.cse X none "s") = .ok zero ∧
+    diff .discontinuous (.var "w") (.ite (.cmp .lt X Y) X Y) = .ok (.ite (.cmp .lt X Y) zero zero) :=
+  ⟨rfl, rfl⟩
+
+/-! ### an exponent that does not depend on the variable: the plain power rule -/
+
+/-- **The repaired behaviour.**  If the exponent `g` of `f ** g` does not depend on the
+differentiation variable (no leaf of `g` is `==` to it; `g` may be any differentiable tree without
+`If` — a constant, another variable, `CommonSubexpression(y)`, `sin(CSE(y*z))`, …), then the
+derivative is the plain power rule `g * f**(g-1) * f'` (`plainPowRule`, no `log(f)` term — so the
+tree can be evaluated wherever `f**(g-1)` can, in particular at `f <= 0` for an integer-valued
+`g >= 1`, and needs no free variable `log`), or the literal `0` when `f'` vanishes as well. -/
+theorem diff_pow_absent_exponent (cfg : Smooth) (v f g df dg : Expr)
+    (hf : diff cfg v f = .ok df) (hg : diff cfg v g = .ok dg)
+    (ha : absent v g = true) (hi : cfg = .discontinuous → iteFree g = true) :
+    diff cfg v (.bin .pow f g)
+      = if df.truthy then liftOp (plainPowRule f g df) else .ok zero := by
+  have e := diff_absent_zero cfg v g dg hg ha hi
+  subst e
+  simp only [diff, hf, hg]
+  show liftOp (powRule f g df zero) = _
+  rw [powRule_dg_zero]
+  split <;> rfl
+
+/-- … in particular for an exponent wrapped in a `CommonSubexpression` (the shape the defect was
+found on): `d/dv f ** CSE(g) = CSE(g) * f**(CSE(g) - 1) * f'`. -/
+theorem diff_pow_cse_exponent (cfg : Smooth) (v f g df dg : Expr) (p : Option String) (s : String)
+    (hf : diff cfg v f = .ok df) (hg : diff cfg v g = .ok dg) (hl : g.hasList = false)
+    (ha : absent v g = true) (hi : cfg = .discontinuous → iteFree g = true) :
+    diff cfg v (.bin .pow f (.cse g p s))
+      = if df.truthy then liftOp (plainPowRule f (.cse g p s) df) else .ok zero :=
+  diff_pow_absent_exponent cfg v f (.cse g p s) df (cseRule dg p s) hf
+    (by simp only [diff, hl, hg]; rfl) (by simpa [absent] using ha)
+    (fun hc => by simpa [iteFree] using hi hc)
+
+/-- non-vacuity: `d/dx x ** CSE(y) = CSE(y) * x ** (CSE(y) + -1)`, and `d/da[1]` of it is `0` -/
+example : diff .none X (.bin .pow X (.cse Y none "s"))
+    = .ok (.nary .prod [.cse Y none "s", .bin .pow X (.nary .sum [.cse Y none "s", negOne])]) := rfl
+example : diff .none X (.bin .pow X (.cse Y none "s"))
+    = liftOp (plainPowRule X (.cse Y none "s") one) :=
+  diff_pow_cse_exponent .none X X Y one zero none "s" rfl rfl rfl rfl (by intro h; cases h)
+example : differentiate .none (.subscript (.var "a") one) (.bin .pow X (.cse Y none "s")) = .ok zero :=
+  rfl
 
 /-! ### known findings as theorems -/
+
+/-- the table as `extract/differentiator.py` reads it from the source BEFORE the repair: the CSE
+handler `return type(expr)(self.rec(expr.child, *args), expr.prefix, expr.scope)` wraps whatever
+the child's derivative is -/
+def c10OldCseTable : C10DiffTable :=
+  { Generated.c10DiffTable with
+    cseZero := none
+    shapes := Generated.c10DiffTable.shapes.map fun (n, sh) =>
+      if n = "map_common_subexpression_uncached" then
+        (n, .rebuild false [(true, "child"), (false, "prefix"), (false, "scope")])
+      else (n, sh) }
+
+/-- **a wrapper around a vanishing derivative (repaired).**  With the old CSE handler (the table
+edited back: it wraps unconditionally) the derivative of `x ** CSE(y)` with respect to `x` is
+`log(x)*x**CSE(y)*CSE(0) + CSE(y)*x**(CSE(y) + -1)`: `CSE(0)` is truthy, so `map_power` does not
+see that the exponent's derivative vanishes and emits the `log(x)` term (the tree cannot be
+evaluated at `x <= 0`, where `x**y` is differentiable for an integer `y >= 1`, and calls the free
+variable `log`); with respect to `a[1]`, which does not occur at all, it is
+`log(x)*x**CSE(y)*CSE(0)` instead of `0`.  The table regenerated from the repaired source gives the
+plain power rule and the literal `0`. -/
+theorem cse_zero_wrapped_table_cex :
+    let G : Expr := .cse Y none "s"
+    let a1 : Expr := .subscript (.var "a") one
+    c10DiffT c10OldCseTable .none X (.bin .pow X G)
+      = .ok (.nary .sum [.nary .prod [logCall X, .bin .pow X G, .cse zero none "s"],
+                         .nary .prod [G, .bin .pow X (.nary .sum [G, negOne])]]) ∧
+    c10DiffT Generated.c10DiffTable .none X (.bin .pow X G)
+      = .ok (.nary .prod [G, .bin .pow X (.nary .sum [G, negOne])]) ∧
+    c10DiffT c10OldCseTable .none a1 (.bin .pow X G)
+      = .ok (.nary .prod [logCall X, .bin .pow X G, .cse zero none "s"]) ∧
+    c10DiffT Generated.c10DiffTable .none a1 (.bin .pow X G) = .ok zero ∧
+    c10OldCseTable.shapes ≠ c10ModelShapes ∧ c10RulesOf c10OldCseTable ≠ c10ModelRules := by
+  refine ⟨rfl, rfl, rfl, rfl, by decide, ?_⟩
+  intro h
+  have := congrArg C10Rules.cseZero h
+  simp [c10RulesOf, c10OldCseTable, c10ModelRules] at this
 
 /-- **copysign, first argument.**  Under "discontinuous" the code differentiates
 `copysign(x, 1)` with respect to `x` to the literal `0`; the function is `|x|`, whose derivative
@@ -309,6 +408,24 @@ theorem copysign_first_argument_cex :
     hasDerivAt_abs one_ne_zero
   have := hder.unique h1
   simp at this
+
+/-- **`If` around vanishing derivatives.**  `map_if` rebuilds `If(c, then', else_')` also when
+both branch derivatives vanish; `If(c, 0, 0)` is truthy (the hypothesis `iteFree` of
+`diff_var_absent_literal` / `diff_pow_absent_exponent` cannot be dropped): with an exponent
+`If(y < 1, 2, 3)`, which does not depend on `x`, the power rule keeps the term
+`log(x) * x**If(..) * If(y < 1, 0, 0)`. -/
+theorem if_zero_wrapped_cex :
+    let G : Expr := .ite (.cmp .lt Y one) two (.const (.int 3))
+    let Z : Expr := .ite (.cmp .lt Y one) zero zero
+    diff .discontinuous X (.bin .pow X G)
+      = .ok (.nary .sum [.nary .prod [logCall X, .bin .pow X G, Z],
+                         .nary .prod [G, .bin .pow X (.nary .sum [G, negOne])]]) ∧
+    absent X G = true ∧ iteFree G = false ∧
+    diff .discontinuous X G = .ok Z ∧ Z.truthy = true ∧ Z ≠ zero ∧
+    ∀ ρ : Expr → ℝ, evalR ρ Z = 0 := by
+  refine ⟨rfl, rfl, rfl, rfl, rfl, (fun h => by cases h), ?_⟩
+  intro ρ
+  simp only [evalR, evalR_zero ρ, ite_self]
 
 /-- **log of an integer constant.**  `log(2)` — a constant — cannot be differentiated: the rule
 builds `pymbolic.rational.Rational(1, 2)` whose product with `0` raises AttributeError. -/
